@@ -12,15 +12,20 @@ LEAN_TARGETS = ["Asynkit.Props.C02", "Asynkit.Lemmas.GenEqC02"]
 PROPS_FILES = ["Asynkit/Props/C02.lean", "Asynkit/Lemmas/GenEqC02.lean"]
 DRIVERS = ["Proto"]
 TRUSTED = [
-    "translator/wrappers2lean.py regenerates Asynkit/Gen/Wrappers.lean from coroutine.py on every run (coro_iter, coro_await, awaitmethod, awaitmethod_iter, await_sync, syncfunction, aiter_sync; statement by statement, generators/coroutines segment by segment); Lemmas/GenEqC02.lean proves each generated segment equal to the model's transition; trusted there: the meaning of the method calls (Model/WrapRt.lean)",
-    "Lean 4.33 kernel; axioms ⊆ {propext, Classical.choice, Quot.sound} (audited per theorem each run)",
-    "hand-written models Asynkit/Model/{Proto,Wrappers}.lean of coroutine.py (CoroStart, coro_await, coro_iter, "
-    "awaitmethod, awaitmethod_iter) and monitor.py (_asend, aawait, BoundMonitor), tied to the code by this run's "
-    "differential correspondence (lean/Drivers/Proto.lean; bodies via Model/ProtoProg.lean)",
-    "MODELLED, NOT VERIFIED: CPython 3.12 generator/coroutine object envelope (send/throw/close on "
+    'translated, not trusted: coro_iter, coro_await, awaitmethod, awaitmethod_iter are re-translated from '
+    'coroutine.py on every run, statement by statement and segment by segment (translator/wrappers2lean.py -> '
+    "Gen/Wrappers.lean), and proved equal to the model's wrapper transformers (Lemmas/GenEqC02.lean, 10 "
+    'theorems); CoroStart and the Monitor/BoundMonitor awaitables are translated by the units of C01 (GenEqC01W) '
+    'and C07 (GenEqC07), audited by those checks',
+    'Lean 4.33 kernel; axioms ⊆ {propext, Classical.choice, Quot.sound} (audited per theorem each run)',
+    'hand-written: Asynkit/Model/Proto.lean (coroutine-object envelope, nativeAwait) and the runtime vocabulary '
+    'Model/WrapRt.lean (what x.send/throw/close, CoroStart(...) and a tail `await x` mean); every wrapper, '
+    "translated or not, is additionally run against the code by this run's differential correspondence "
+    '(lean/Drivers/Proto.lean; bodies via Model/ProtoProg.lean)',
+    'MODELLED, NOT VERIFIED: CPython 3.12 generator/coroutine object envelope (send/throw/close on '
     "created/suspended/finished objects, PEP 479, 'ignored GeneratorExit', 'cannot reuse'), coroutine_wrapper "
-    "forwarding, PEP-380 delegation as the meaning of `await` (validated by the `ref` stream of the correspondence), "
-    "asyncio.Future.__await__ handshake flag",
+    'forwarding, PEP-380 delegation as the meaning of `await` (validated by the `ref` stream of the '
+    'correspondence), asyncio.Future.__await__ handshake flag',
 ]
 ASSUMPTIONS = [
     "no out-of-band data is sent through a Monitor and the awaited coroutine's first step does not itself raise OOBData "
